@@ -1,6 +1,9 @@
-(* Proofs/NumOps_proofs.v — lemmas about Model/NumOps.v *)
-From Coq Require Import ZArith NArith Bool List Lia Floats.SpecFloat.
-From RJ Require Import Base.Outcome Base.F64 Model.Dec Model.NumOps.
+(* Proofs/NumOps_proofs.v — lemmas about Model/NumOps.v.
+   Part A is axiom-free (order on non-NaN doubles, the refutation for the snapshot's gate table);
+   Part B (finiteness of every producer under a sufficient gate table) goes through Flocq. *)
+From Coq Require Import ZArith NArith Bool List Lia Reals Psatz Floats.SpecFloat.
+From Flocq Require Import Core.Core Core.Digits Calc.Round IEEE754.BinarySingleNaN.
+From RJ Require Import Base.Outcome Base.F64 Model.Dec Model.NumOps Proofs.Dec_proofs.
 Local Open Scope Z_scope.
 
 (* ---------------------------------------------------------------- comparison is total on non-NaN *)
@@ -21,14 +24,219 @@ Proof.
   - exfalso. exact (compare_total_on_finite x y Hx Hy E).
 Qed.
 
+(* ---------------------------------------------------------------- finite, well-formed doubles *)
+
+Definition fin_ok (x : f64) : bool := f_is_finite x && valid_binary 53 1024 x.
+
+Definition arg_ok (a : arg) : Prop :=
+  match a with
+  | ANum x => fin_ok x = true
+  | AArr l => forallb fin_ok l = true
+  | _ => True
+  end.
+
+(* producers whose raw result can leave the finite doubles on finite arguments *)
+Definition needs_gate (op : numop) : bool :=
+  match op with
+  | OAdd | OSub | OMul | ODiv | ORem | BSum | BAvg | BPow | BExp | BLog | BLog2 | BLog10 | BSqrt
+  | BSin | BCos | BTan | BAsin | BAcos | BAtan | BAtan2 | BHypot | BMod | BModulo | BDeg2Rad | BRad2Deg
+  | BParseInt | BParseOctal | BParseHex => true
+  | _ => false
+  end.
+
+Definition gates_sufficient (g : gates) : Prop := forall op, needs_gate op = true -> g op = true.
+
+Lemma check_number_finite x v : check_number x = Ok v -> f_is_finite v = true.
+Proof. destruct x; simpl; intros H; inversion H; reflexivity. Qed.
+
+Lemma gate_id g op x v : gate g op x = Ok v -> v = x.
+Proof. unfold gate. destruct (g op); [|now inversion 1]. destruct x; simpl; now inversion 1. Qed.
+
+Lemma gate_finite g op x v : g op = true -> gate g op x = Ok v -> f_is_finite v = true.
+Proof. unfold gate. intros ->. apply check_number_finite. Qed.
+
+Lemma gate_keeps g op x v : f_is_finite x = true -> gate g op x = Ok v -> f_is_finite v = true.
+Proof. intros Hx H. now rewrite (gate_id _ _ _ _ H). Qed.
+
+(* ---------------------------------------------------------------- integers convert to finite doubles *)
+
+Lemma f_of_Z_s_finite z s : Z.abs z <= 2 ^ 64 -> f_is_finite (f_of_Z_s z s) = true.
+Proof.
+  intros H. unfold f_of_Z_s.
+  assert (Hf : is_finite_SF (SpecFloat.binary_normalize 53 1024 z 0 s) = true).
+  { apply binary_normalize_finite. rewrite F2R_exp0, <- abs_IZR.
+    apply Rle_trans with (IZR (2 ^ 64)). now apply IZR_le.
+    rewrite <- (bpow2_IZR 64) by lia. apply bpow_le. lia. }
+  unfold prec, emax. destruct (SpecFloat.binary_normalize 53 1024 z 0 s); simpl in *; congruence.
+Qed.
+
+Lemma f_of_Z_s_valid z s : valid_binary 53 1024 (f_of_Z_s z s) = true.
+Proof. apply binary_normalize_valid. Qed.
+
+Lemma wrap_i64_bound z : Z.abs (wrap_i64 z) <= 2 ^ 64.
+Proof.
+  unfold wrap_i64. pose proof (Z.mod_pos_bound z (2 ^ 64) ltac:(lia)).
+  destruct (z mod 2 ^ 64 <? 2 ^ 63); lia.
+Qed.
+
+Lemma f_of_i64_finite z : f_is_finite (f_of_i64 z) = true.
+Proof. unfold f_of_i64, f_of_Z, f_of_Z_exp. apply (f_of_Z_s_finite _ false). apply wrap_i64_bound. Qed.
+
+Lemma f_of_N_finite n : (n < 2 ^ 64)%N -> f_is_finite (f_of_N n) = true.
+Proof.
+  intros H. unfold f_of_N, f_of_Z, f_of_Z_exp. apply (f_of_Z_s_finite _ false).
+  assert (Z.of_N n < 2 ^ 64). { change (2 ^ 64) with (Z.of_N (2 ^ 64)). lia. } lia.
+Qed.
+
+(* ---------------------------------------------------------------- mantissa bound of a well-formed double *)
+
+Lemma valid_bounds s m e :
+  valid_binary 53 1024 (S754_finite s m e) = true -> Z.pos m < 2 ^ 53 /\ -1074 <= e <= 971.
+Proof.
+  simpl. unfold bounded, canonical_mantissa. intros H. apply andb_prop in H. destruct H as [H1 H2].
+  apply Zeq_bool_eq in H1. apply Z.leb_le in H2.
+  unfold SpecFloat.fexp, SpecFloat.emin in H1.
+  assert (Hd : Z.pos (digits2_pos m) <= 53) by lia.
+  rewrite Zpos_digits2_pos in Hd.
+  pose proof (Zdigits_correct radix2 (Z.pos m)) as [_ Hc]. rewrite Z.abs_eq in Hc by lia.
+  split; [|lia].
+  apply Z.lt_le_trans with (1 := Hc).
+  change (radix2 ^ Zdigits radix2 (Z.pos m) <= radix2 ^ 53).
+  apply Z.pow_le_mono_r. reflexivity. exact Hd.
+Qed.
+
+Lemma f_floor_finite x : fin_ok x = true -> f_is_finite (f_floor x) = true.
+Proof.
+  unfold fin_ok. intros H. apply andb_prop in H. destruct H as [Hf Hv].
+  destruct x as [s|s| |s m e]; try exact Hf. simpl.
+  destruct (Z.leb_spec 0 e) as [Hle|Hle]; [reflexivity|].
+  destruct (valid_bounds _ _ _ Hv) as [Hm He].
+  assert (Hp : 0 < 2 ^ (- e)) by (apply Z.pow_pos_nonneg; lia).
+  pose proof (Z.div_le_upper_bound (Z.pos m) (2 ^ (- e)) (Z.pos m) Hp ltac:(nia)) as Hq.
+  pose proof (Z.div_pos (Z.pos m) (2 ^ (- e)) ltac:(lia) Hp) as Hq0.
+  destruct s; apply f_of_Z_s_finite; destruct (Z.pos m mod 2 ^ (- e) =? 0); lia.
+Qed.
+
+Lemma f_ceil_finite x : fin_ok x = true -> f_is_finite (f_ceil x) = true.
+Proof.
+  unfold fin_ok. intros H. apply andb_prop in H. destruct H as [Hf Hv].
+  destruct x as [s|s| |s m e]; try exact Hf. simpl.
+  destruct (Z.leb_spec 0 e) as [Hle|Hle]; [reflexivity|].
+  destruct (valid_bounds _ _ _ Hv) as [Hm He].
+  assert (Hp : 0 < 2 ^ (- e)) by (apply Z.pow_pos_nonneg; lia).
+  pose proof (Z.div_le_upper_bound (Z.pos m) (2 ^ (- e)) (Z.pos m) Hp ltac:(nia)) as Hq.
+  pose proof (Z.div_pos (Z.pos m) (2 ^ (- e)) ltac:(lia) Hp) as Hq0.
+  destruct s; apply f_of_Z_s_finite; destruct (Z.pos m mod 2 ^ (- e) =? 0); lia.
+Qed.
+
+Lemma f_mantissa_finite x : f_is_finite x = true -> f_is_finite (f_mantissa x) = true.
+Proof. destruct x; simpl; auto. Qed.
+
+(* f_add of two well-formed doubles is well-formed (needed by std.round = floor (x + 0.5)) *)
+Lemma f_add_valid x y :
+  valid_binary 53 1024 x = true -> valid_binary 53 1024 y = true -> valid_binary 53 1024 (f_add x y) = true.
+Proof.
+  intros Hx Hy. unfold f_add, SFadd.
+  destruct x as [sx|sx| |sx mx ex], y as [sy|sy| |sy my ey]; try reflexivity; try assumption;
+    try (destruct (Bool.eqb _ _); reflexivity).
+  apply binary_normalize_valid.
+Qed.
+
+(* ---------------------------------------------------------------- the invariant *)
+
+Lemma fin_ok_finite x : fin_ok x = true -> f_is_finite x = true.
+Proof. unfold fin_ok. intros H. now apply andb_prop in H. Qed.
+Lemma fin_ok_valid x : fin_ok x = true -> valid_binary 53 1024 x = true.
+Proof. unfold fin_ok. intros H. now apply andb_prop in H. Qed.
+
+Lemma f_neg_finite x : f_is_finite x = true -> f_is_finite (f_neg x) = true.
+Proof. destruct x; simpl; auto. Qed.
+
+Lemma check_finite_overflow_finite x v : check_finite_overflow x = Ok v -> f_is_finite v = true.
+Proof. unfold check_finite_overflow. destruct (f_is_finite x) eqn:E; intros H; inversion H; subst; auto. Qed.
+
+Lemma parse_int_finite s v : parse_int true s = Ok v -> f_is_finite v = true.
+Proof.
+  unfold parse_int.
+  match goal with |- context [let '(n, b) := ?X in _] => destruct X as [neg body] end.
+  destruct body; [discriminate|]. destruct (all_digits _); [|discriminate].
+  apply check_finite_overflow_finite.
+Qed.
+
+Lemma parse_num_radix_finite radix s v : parse_num_radix true radix s = Ok v -> f_is_finite v = true.
+Proof.
+  unfold parse_num_radix. destruct s as [|c r]; [discriminate|].
+  destruct (split_bytes _ _) as [[a b]|]; [|discriminate].
+  intros H. apply obind_ok_inv in H. destruct H as [n [_ H]].
+  apply obind_ok_inv in H. destruct H as [x [_ H]].
+  now apply check_finite_overflow_finite in H.
+Qed.
+
+Ltac inv_ok H :=
+  repeat match type of H with
+  | obind _ _ = Ok _ =>
+      let x := fresh "x" in let E := fresh "E" in
+      apply obind_ok_inv in H; destruct H as [x [E H]]
+  | (if ?c then _ else _) = Ok _ => destruct c eqn:?; try discriminate H
+  end.
+
+Ltac shape H :=
+  repeat (cbv beta iota in H;
+          match type of H with
+          | context [match ?l with [] => _ | _ :: _ => _ end] => is_var l; destruct l; try discriminate H
+          | context [match ?a with ANum _ => _ | AArr _ => _ | AStr _ => _ | ACount _ => _ end] => is_var a; destruct a; try discriminate H
+          end);
+  cbv beta iota in H.
+
+Ltac args_ok :=
+  repeat match goal with
+  | H : Forall arg_ok (_ :: _) |- _ => inversion H; clear H; subst
+  | H : Forall arg_ok [] |- _ => clear H
+  | H : arg_ok (ANum _) |- _ => simpl in H
+  end.
+
+Ltac done_ok H := inversion H; subst; clear H.
+
+Theorem numop_finite : forall (L : libm_sig) (g : gates) op args v,
+  gates_sufficient g -> Forall arg_ok args ->
+  eval_numop L g op args = Ok v -> f_is_finite v = true.
+Proof.
+  intros L g op args v Hg Hargs H.
+  assert (Gate : forall op' x, needs_gate op' = true -> gate g op' x = Ok v -> f_is_finite v = true).
+  { intros op' x Hn. apply gate_finite. now apply Hg. }
+  destruct op; unfold eval_numop, un_libm, bin_libm, bitwise2 in H; shape H; args_ok;
+    try (eapply Gate; [|exact H]; reflexivity).
+  all: try (inv_ok H; try (eapply Gate; [|exact H]; reflexivity)).
+  all: try (done_ok H; apply f_of_i64_finite).
+  all: repeat match goal with Hf : fin_ok ?y = true |- _ =>
+         pose proof (fin_ok_finite _ Hf); pose proof (fin_ok_valid _ Hf); clear Hf end.
+  (* results that are an argument, a constant, or a negation *)
+  all: try (done_ok H; repeat match goal with |- context [if ?c then _ else _] => destruct c end;
+            first [assumption | apply f_neg_finite; assumption | reflexivity | apply f_neg_finite; reflexivity]).
+  (* floor / ceil / mantissa / exponent / length / codepoint: finite whether or not a gate is present *)
+  - eapply gate_keeps; [|exact H]. apply f_floor_finite. unfold fin_ok. now rewrite H0, H1.
+  - eapply gate_keeps; [|exact H]. apply f_ceil_finite. unfold fin_ok. now rewrite H0, H1.
+  - (* round = floor (x + 0.5): the sum passed the + gate, so it is a finite well-formed double *)
+    eapply gate_keeps; [|exact H]. apply f_floor_finite.
+    pose proof (gate_id _ _ _ _ E) as Es. unfold fin_ok. apply andb_true_intro. split.
+    + eapply gate_finite; [|exact E]. now apply Hg.
+    + subst x0. apply f_add_valid. assumption. reflexivity.
+  - eapply gate_keeps; [|exact H]. now apply f_mantissa_finite.
+  - eapply gate_keeps; [|exact H]. apply f_of_i64_finite.
+  - eapply gate_keeps; [|exact H]. apply f_of_N_finite. now apply N.ltb_lt.
+  - eapply gate_keeps; [|exact H]. apply f_of_N_finite. apply N.ltb_lt in Heqb. lia.
+  - rewrite (Hg BParseInt eq_refl) in H. eapply parse_int_finite; eauto.
+  - rewrite (Hg BParseOctal eq_refl) in H. eapply parse_num_radix_finite; eauto.
+  - rewrite (Hg BParseHex eq_refl) in H. eapply parse_num_radix_finite; eauto.
+Qed.
+
 (* ---------------------------------------------------------------- the snapshot's table lets sum overflow *)
 
 Definition big : f64 := S754_finite false 5010420900022432 971.   (* 1e308 *)
 
 Lemma sum_finite_refuted_snapshot :
   exists (L : libm_sig) args v,
-    Forall (fun a => match a with AArr l => forallb f_is_finite l = true | _ => True end) args /\
-    eval_numop L gates_snapshot BSum args = Ok v /\ f_is_finite v = false.
+    Forall arg_ok args /\ eval_numop L gates_snapshot BSum args = Ok v /\ f_is_finite v = false.
 Proof.
   exists (const_libm f_zero), [AArr [big; big]], (S754_infinity false).
   split; [ repeat constructor | split; vm_compute; reflexivity ].
